@@ -80,6 +80,15 @@ class TLCResult:
                 res.append(json.loads(_unescape(body)))
         return res
 
+    def tagged_raw_json(self, tag):
+        """like tagged() but returns the un-escaped JSON text of each record (cheap dedup, no parse)."""
+        res = []
+        pre = '<<"%s", "' % tag
+        for line in self.out.splitlines():
+            if line.startswith(pre) and line.endswith('">>'):
+                res.append(_unescape(line[len(pre):-3]))
+        return res
+
     def tagged_raw(self, tag):
         res = []
         pre = '<<"%s", ' % tag
